@@ -113,3 +113,74 @@ theorem play_adds (s : Snap K) (os : List (Obj K)) (hn : (os.map (·.id)).Nodup)
     simp
 
 end Zed.Lake
+
+namespace Zed.Lake
+variable {K : Type}
+
+/-- the object list after playing deletes: the remaining objects in their original order -/
+theorem play_dels_objs (s s' : Snap K) (ids : List Nat) (h : play s (ids.map .del) = .ok s') :
+    s'.objs = s.objs.filter (fun o => !ids.contains o.id) ∧ s'.vecs = s.vecs := by
+  induction ids generalizing s with
+  | nil =>
+    simp only [List.map_nil, play, Except.ok.injEq] at h
+    subst h
+    exact ⟨(List.filter_eq_self.mpr (by intros; rfl)).symm, rfl⟩
+  | cons x xs ih =>
+    simp only [List.map_cons, play, playAction] at h
+    cases hd : s.delObj x with
+    | error e => simp [hd] at h
+    | ok s1 =>
+      simp only [hd] at h
+      obtain ⟨h1, h2⟩ := ih s1 h
+      have hs1 := (delObj_ok s s1 x hd).2
+      rw [h1, h2, hs1]
+      refine ⟨?_, rfl⟩
+      simp only [List.filter_filter]
+      congr 1
+      funext o
+      simp only [List.contains_cons]
+      cases hx : (o.id == x) <;> simp [hx, bne]
+
+end Zed.Lake
+
+/-! ### `uniqueIDs` -/
+namespace Zed.Lake
+
+theorem mem_uniqueIds (l : List Nat) (a : Nat) : a ∈ uniqueIds l ↔ a ∈ l := by
+  induction l with
+  | nil => simp [uniqueIds]
+  | cons x xs ih =>
+    simp only [uniqueIds, List.mem_cons, List.mem_filter, ih]
+    constructor
+    · rintro (h | ⟨h, _⟩)
+      · exact Or.inl h
+      · exact Or.inr h
+    · rintro (h | h)
+      · exact Or.inl h
+      · by_cases hax : a = x
+        · exact Or.inl hax
+        · exact Or.inr ⟨h, by simpa using hax⟩
+
+theorem nodup_uniqueIds (l : List Nat) : (uniqueIds l).Nodup := by
+  induction l with
+  | nil => simp [uniqueIds]
+  | cons x xs ih =>
+    simp only [uniqueIds, List.nodup_cons, List.mem_filter]
+    refine ⟨?_, ih.filter _⟩
+    rintro ⟨_, h⟩
+    simp at h
+
+theorem contains_uniqueIds (l : List Nat) (a : Nat) : (uniqueIds l).contains a = l.contains a := by
+  cases h : l.contains a with
+  | true =>
+    have : a ∈ l := by simpa using h
+    simpa using (mem_uniqueIds l a).mpr this
+  | false =>
+    cases h2 : (uniqueIds l).contains a with
+    | false => rfl
+    | true =>
+      have : a ∈ uniqueIds l := by simpa using h2
+      have := (mem_uniqueIds l a).mp this
+      have : l.contains a = true := by simpa using this
+      rw [h] at this; cases this
+end Zed.Lake
